@@ -68,7 +68,11 @@ EIF = "ExternalImportFilter"
 # "<root>." when root_path == module_path and "<root>.<dotted path of module_path>" otherwise. The code tests a raw string prefix;
 # the contract is the SANDWICH dotted-internal => result => raw-prefix, so both the current test and a dotted-boundary test satisfy it
 # (observation O4: the difference has no observable effect, the graph refuses edges to non-nodes).
-REG.macro("dotted_internal", ["P", "m"], "(P.endswith('.') and m.startswith(P)) or m == P or m.startswith(P + '.')")
+# (after fix F10c the root package itself -- the prefix without its trailing dot -- is internal as well: `import proj` is the same import in every configuration)
+REG.macro("dotted_internal", ["P", "m"], "(P.endswith('.') and (m.startswith(P) or m + '.' == P)) or m == P or m.startswith(P + '.')")
+REG.macro("raw_internal", ["P", "m"], "m.startswith(P) or m + '.' == P")
+# (the set of scanned modules the converter looks names up in: the root package itself need not be part of it)
+REG.macro("dotted_below", ["P", "m"], "(P.endswith('.') and m.startswith(P)) or m == P or m.startswith(P + '.')")
 REG.macro("eif_internal", ["f", "i"], "ExternalImportFilter._is_internal_import(f, i)")
 REG.macro("eif_dropped_external", ["f", "i"],
           "ff_excluded(f._external_exclusion_filter, imp_importee(i)) or exists(Str, lambda p: str_anc(p, imp_hname(i)) and ff_excluded(f._external_exclusion_filter, p))")
@@ -78,7 +82,7 @@ REG.add(Contract(f"{EIF}.__init__", module=M_IF, kind="method", view="string",
                           "same_elements(self._external_exclusion_filter._excluded_directories, external_exclusions)"], properties=["C10"]))
 REG.add(Contract(f"{EIF}._is_internal_import", module=M_IF, kind="method", view="string", params=dict(self=EIF, i="Imp"), returns="Bool",
                  ensures=["implies(dotted_internal(self._root_module_name, imp_importee(i)), result)",
-                          "implies(result, imp_importee(i).startswith(self._root_module_name))"], pure=True, properties=["C10", "C14"]))
+                          "implies(result, raw_internal(self._root_module_name, imp_importee(i)))"], pure=True, properties=["C10", "C14"]))
 REG.add(Contract(f"{EIF}._is_internal_or_retained_external_import", module=M_IF, kind="method", view="string", params=dict(self=EIF, i="Imp"), returns="Bool",
                  defn="eif_internal(self, i) or not eif_dropped_external(self, i)", properties=["C10"]))
 REG.add(Contract(f"{EIF}.filter", module=M_IF, kind="method", view="string", params=dict(self=EIF, imports="Bag[Imp]"), returns="Bag[Imp]",
@@ -150,14 +154,14 @@ REG.add(Contract("_get_internal_module_prefix", module=M_GG, view="string", para
                  properties=["C04", "C10", "C14"]))
 REG.add(Contract("_get_all_internal_modules", module=M_GG, view="string", params=dict(modules="Bag[Str]", internal_module_prefix="Str"), returns="Set[Str]",
                  ensures=["forall(Str, lambda m: implies(m in result, (m in modules) and m.startswith(internal_module_prefix)))",
-                          "forall(Str, lambda m: implies((m in modules) and dotted_internal(internal_module_prefix, m), m in result))"],
+                          "forall(Str, lambda m: implies((m in modules) and dotted_below(internal_module_prefix, m), m in result))"],
                  properties=["C04", "C10", "C14"], note="sandwich as for _is_internal_import: a dotted-boundary test satisfies it as well"))
 REG.add(Contract("_remove_excluded_imports", module=M_GG, view="string",
                  params=dict(exclude_external_libraries="Bool", imports="Bag[Imp]", internal_module_prefix="Str", external_exclusions="Bag[Str]"), returns="Bag[Imp]",
                  ensures=["forall(Imp, lambda i: implies(i in result, i in imports))",
                           # C10 frame at the pipeline stage: internal imports survive every external option
                           "forall(Imp, lambda i: implies((i in imports) and dotted_internal(internal_module_prefix, imp_importee(i)), i in result))",
-                          "implies(exclude_external_libraries and not nonempty(external_exclusions), forall(Imp, lambda i: implies(i in result, imp_importee(i).startswith(internal_module_prefix))))",
+                          "implies(exclude_external_libraries and not nonempty(external_exclusions), forall(Imp, lambda i: implies(i in result, raw_internal(internal_module_prefix, imp_importee(i)))))",
                           "implies((not exclude_external_libraries) and not nonempty(external_exclusions), same_elements(result, imports))"],
                  properties=["C10"]))
 REG.macro("ext_pat_excluded", ["pats", "s"], "exists(Str, lambda p: (p in pats) and re_match(p, s))")
